@@ -109,7 +109,7 @@ func runC17(c *report.Ctx) {
 	ruleSuspendResume(c)
 
 	// the live per-coin flags are what rejects a coin whose spender is mined while the query iterates (the store has no snapshot)
-	ruleEligibility(c, false)
+	ruleEligibility(c, "live")
 
 	// ---- (2) snapshot reads -----------------------------------------------------------------------------
 	c.Rule("snapshot-reads", "a read transaction reads through a LevelDB snapshot, so a query sees one committed state", 1)
